@@ -61,7 +61,7 @@ fn random_bytes(r: &mut Rng) -> Vec<u8> {
 
 pub fn run(ctx: &mut Ctx) {
     let prop = "C15";
-    ctx.ev.rule = "(a) validator: generated transactions with zero/negative quantities, prices, fees, totals and ratios: validate() reports an error iff the property's predicate holds; compared with the Lean model's error count. (b) library under catch_unwind with a time limit: parse_file on arbitrary byte strings (random bytes, DSL alphabet soup, one-byte corruptions, non-ASCII) and calculate() on hostile ledgers (zero quantities and prices, 1e-28, magnitudes up to 7.9e28, sells first, dates 0001-01-01/9999-12-31/range edges): Ok or Err, never a panic — except inside known-finding class overflowMagnitude (D9). (d) the MCP tools: one pipelined session per 24 requests of malformed JSON texts (raw newlines inside strings, truncated arrays, BOM), hostile ledgers and random bytes over calculate_report, parse_transactions, convert_to_dsl, explain_matching: every request id answered exactly once, clean exit. (f) covered sales dated at the ends of chrono's date range (library): no panic. (g) hostile rates in an --fx-folder file (tiny, huge, zero, negative, non-numeric, exponent notation) for the month a foreign amount falls in, in-process and through the binary: a report or a clean error. (e) the Schwab converter in-process on generated exports (free text of up to 200 mixed-width characters), with and without an awards file, and on damaged JSON: a result or an error, never a panic. (c) the real binary: the same inputs as files, missing files (alone and among several inputs, as are a directory and a non-UTF-8 file), unwritable and pre-existing --output paths, default PDF path with an existing file: on failure non-zero exit (not 101, no signal), empty stdout, --output untouched; on success exit 0. Non-trivial = inputs that are rejected cleanly, and validator cases with ≥ 1 bad field; distinct by input.".into();
+    ctx.ev.rule = "(a) validator: generated transactions with zero/negative quantities, prices, fees, totals and ratios: validate() reports an error iff the property's predicate holds; compared with the Lean model's error count. (b) library under catch_unwind with a time limit: parse_file on arbitrary byte strings (random bytes, DSL alphabet soup, one-byte corruptions, non-ASCII) and calculate() on hostile ledgers (zero quantities and prices, 1e-28, magnitudes up to 7.9e28, sells first, dates 0001-01-01/9999-12-31/range edges): Ok or Err, never a panic — except inside known-finding class overflowMagnitude (D9). (d) the MCP tools: one pipelined session per 24 requests of malformed JSON texts (raw newlines inside strings, truncated arrays, BOM), hostile ledgers and random bytes over calculate_report, parse_transactions, convert_to_dsl, explain_matching: every request id answered exactly once, clean exit. (f) covered sales dated at the ends of chrono's date range (library): no panic. (g) hostile rates in an --fx-folder file (tiny, huge, zero, negative, non-numeric, exponent notation) for the month a foreign amount falls in, in-process and through the binary: a report or a clean error. (e) the Schwab converter in-process on generated exports (free text of up to 200 mixed-width characters; hostile Date cells: the `as of` marker at the end, alone, doubled, followed by a no-break space or a wide character), with and without an awards file, and on damaged JSON: a result or an error, never a panic. (c) the real binary: the same inputs as files, missing files (alone and among several inputs, as are a directory and a non-UTF-8 file), unwritable and pre-existing --output paths, default PDF path with an existing file: on failure non-zero exit (not 101, no signal), empty stdout, --output untouched; on success exit 0. Non-trivial = inputs that are rejected cleanly, and validator cases with ≥ 1 bad field; distinct by input.".into();
 
     // (f) dates at the ends of chrono's range (reachable through the library and the JSON input, whose years
     // are not limited to four digits): a covered sale within 30 days of the last or first representable date,
@@ -94,6 +94,13 @@ pub fn run(ctx: &mut Ctx) {
         let mut rr = Rng::new(ctx.seed ^ 0xC15E);
         for i in 0..ctx.n(150, 6000) {
             let mut jt = super::c18::gen_export(&mut rr);
+            if i % 7 == 3 {
+                // a hostile Date on the first row: the `as of` marker at the very end, alone, doubled, followed by a
+                // no-break space or a wide character, dates that are not dates
+                let hostile = ["04/25/2023 as of", "as of", "as of ", "04/25/2023 as of\u{a0}04/24/2023", "04/25/2023 as of中", "as of as of", "04/25/2023 as of 04/24/2023 as of", "", " ", "13/40/2023", "04/25/2023 as of 13/40/2023", "as of\u{a0}", "😀 as of"];
+                let h = hostile[(i as usize / 7) % hostile.len()];
+                if let (Some(a), true) = (jt.find("\"Date\":\""), true) { let b = a + 8; if let Some(e) = jt[b..].find('"') { jt.replace_range(b..b + e, &h.replace('\\', "")); } }
+            }
             if i % 5 == 4 {
                 // damage: cut the text, or replace one value by another JSON type
                 let cut = rr.below(jt.len() as u64 + 1) as usize;
